@@ -66,6 +66,19 @@ fn main() {
         if let Ok(txt) = std::fs::read_to_string(rp) {
             if let Ok(j) = common::json::parse(&txt) {
                 let case = j.get("case");
+                if case.and_then(|c| c.get("part")).and_then(|x| x.as_str()) == Some("deep-chain") && case.and_then(|c| c.get("suite")).is_some() {
+                    let suite = case.and_then(|c| c.get("suite")).and_then(|x| x.as_str()).unwrap_or("").to_string();
+                    let found = models::deep::replay(&suite);
+                    for x in &found {
+                        println!("  {}: {}", x.sig, x.detail);
+                    }
+                    if found.is_empty() {
+                        println!("holds on this case");
+                        std::process::exit(0);
+                    }
+                    println!("VIOLATION property={} replay={}", prop, rp.display());
+                    std::process::exit(1);
+                }
                 if case.and_then(|c| c.get("part")).and_then(|x| x.as_str()) == Some("hang") && case.and_then(|c| c.get("where").or(c.get("worker"))).is_some() {
                     println!("replay {}: the recorded violation is a call into rivia that did not return ({}); it is re-observed by re-running ./check {} (the watchdog stops at the first call that does not return)", prop, case.map(|c| c.to_string()).unwrap_or_default(), prop);
                     println!("VIOLATION property={} replay={}", prop, rp.display());
